@@ -228,7 +228,7 @@ def run(ctx):
     widths = list(range(1, 73)) + [128]
     nrand = ctx.size(8, 200)
     for n in widths:
-        for enc in ("unsigned", "signed", "twosComplement"):
+        for enc in ("unsigned", "signed", "twosComplement", "twosCompliment"):
             for little in (False, True):
                 if little and n % 8:
                     continue
